@@ -168,6 +168,9 @@ class Sim:
         self.seen_msgs = set()
         self.steps = []           # [t, batch(list of (addr, raw)), rand, replies{addr: payload}]
         self.states = []          # pool summary at every block
+        self.views = []           # (cid, status, last_recv, token) of `connections` at every block
+        self.tviews = []          # (cid, status, token) of `temp_connections` at every block
+        self.marks = []           # len(log) at every block
         self.sends = []           # (step, addr, bytes)
         self.recv_bytes = []      # (step, addr, n)
         self.internal = []        # harness-internal problems (must stay empty)
@@ -267,6 +270,10 @@ class Sim:
                 raises = True
         if ev[0] == 2:
             self.states.append(self.summary())
+            self.views.append([(self.cid(c), c.status.value, S.ticks(c.last_recv_time), int(c.token))
+                               for c in self.ctxt.connections.values()])
+            self.tviews.append([(self.cid(c), c.status.value, int(c.token)) for c in self.ctxt.temp_connections.values()])
+            self.marks.append(len(self.log))
             self.sem_blocked.release()
             self.sem_go.acquire()
         if raises:
@@ -554,3 +561,124 @@ def recraft(sim, raw, key_id, edit):
     h[5] = len(payload)
     h[6] = len(msgs)
     return S.concrete([h, [0, key_id, h, payload]], sim.keys)
+
+
+# -------------------------------------------------------------------- a world of clients around the server
+
+def random_policy(rng, p_raise=0.12, echo=0.6, chatty=True):
+    """handler behaviour drawn from rng, call by call: raise, echo, greet, disconnect the event's
+    client or another one, send to another client (all retry modes, with and without callback)"""
+    state = {"cb": 0}
+
+    def targets(sim):
+        return [av(a) for a in sim.ctxt.connections.keys()]
+
+    def own(sim, ev):
+        for c in sim.ctxt.connections.values():
+            if sim.cid(c) == ev[1]:
+                return av(c.addr)
+        return None
+
+    def snd(a, payload):
+        state["cb"] += 1
+        retry = rng.choice([0, 0, 1, -1])
+        cb = state["cb"] if rng.random() < 0.4 else -1
+        return [1, a, payload, retry, cb]
+
+    def policy(sim, n, ev):
+        acts = []
+        kind = ev[0]
+        me = own(sim, ev) if kind in (3, 4, 5) else None
+        if kind == 4 and me and rng.random() < echo:
+            acts.append([1, me, b"echo:" + ev[3][:600], 0, -1])
+        if chatty:
+            r = rng.random()
+            if kind == 3 and me:
+                if r < 0.3:
+                    acts.append(snd(me, b"welcome %d" % ev[1]))
+                elif r < 0.36:
+                    acts.append([0, me])
+            elif kind == 4 and me:
+                if r < 0.05:
+                    acts.append([0, me])
+                elif r < 0.09 and targets(sim):
+                    acts.append([0, rng.choice(targets(sim))])
+                elif r < 0.2 and targets(sim):
+                    acts.append(snd(rng.choice(targets(sim)), b"relay " + ev[3][:40]))
+                elif r < 0.22:
+                    acts.append(snd(me, bytes(rng.randrange(256) for _ in range(rng.choice([1500, 2500, 4000])))))
+            elif kind == 5 and me:
+                if r < 0.1:
+                    acts.append(snd(me, b"bye"))
+                elif r < 0.2:
+                    acts.append([0, me])
+                elif r < 0.3 and targets(sim):
+                    acts.append([0, rng.choice(targets(sim))])
+            elif kind == 2:
+                if r < 0.06 and targets(sim):
+                    for a in targets(sim):
+                        acts.append(snd(a, b"tick %d" % n))
+                elif r < 0.09 and targets(sim):
+                    acts.append([0, rng.choice(targets(sim))])
+        return acts, rng.random() < p_raise
+    return policy
+
+
+class World:
+    """the stepped server + real clients + a record of every datagram ever sent by a client
+    (for duplication / replay) ; routes the server's datagrams back to the clients"""
+
+    def __init__(self, run, rng, cfg=(5 * T, 2 * T, 1536, T), blocklist=(), mtu=1500, policy=None, full=True, t0=100 * T):
+        self.rng = rng
+        self.sim = Sim(run, cfg=cfg, blocklist=blocklist, mtu=mtu, policy=policy, full=full)
+        self.t = t0
+        self.clients = []          # dicts: hc, ticking, addr
+        self.by_addr = {}
+        self.sent_hist = []        # (addr, raw) of every client datagram
+        self.batches = []
+        self.sim.start(self.t)
+
+    def add_client(self, addr, pinned=True):
+        hc = HClient(self.sim, addr, pinned=pinned)
+        saved = S.CLOCK.t
+        hc.connect()
+        rec = {"hc": hc, "ticking": True, "addr": addr, "edit": None}
+        self.clients.append(rec)
+        self.by_addr[addr] = rec
+        return rec
+
+    def step(self, dt, extra=(), rand=(), transform=None):
+        """one harness step: clients tick at the new time, their datagrams + `extra` are fed,
+        the server runs S_{k-1}, D_k, U_k.  Returns False when the loop thread is gone."""
+        self.t += dt
+        S.CLOCK.t = self.t
+        batch = []
+        for rec in self.clients:
+            if not rec["ticking"]:
+                continue
+            for d in rec["hc"].tick():
+                self.sent_hist.append((rec["addr"], d))
+                if rec["edit"] is not None:
+                    d = rec["edit"](rec, d)
+                    if d is None:
+                        continue
+                batch.append((rec["addr"], d))
+        batch += list(extra)
+        if transform:
+            batch = transform(batch)
+        n0 = len(self.sim.sends)
+        self.batches.append(batch)
+        alive = self.sim.advance(self.t, batch, rand)
+        for (k, addr, data) in self.sim.sends[n0:]:
+            rec = self.by_addr.get(addr)
+            if rec is not None and rec["ticking"]:
+                rec["hc"].deliver(data)
+        return alive
+
+    def finish(self, dt=300):
+        self.t += dt
+        n0 = len(self.sim.sends)
+        self.sim.finish(self.t)
+
+    def close(self):
+        self.sim.close()
